@@ -886,6 +886,11 @@ def case_large(ctx, cls, rseed):
            ["anon", r.randint(1, 30), "clause"], ["perm", 5, r.choice([None, 3])], ["var"], ["graph", n, E],
            ["digraph", n, E + [e[::-1] for e in E[::2]], r.choice(["pred", "succ"])],
            ["bmap", r.randint(3, 6), r.randint(17, 40)], ["comb", 7, 3], ["map", 6, 7], ["anon", 3, "upd"], ["var"]]
+    # bipartite graphs of a user class with left vertices of degree 15-70, neighbours listed in the class's own order
+    L, R = r.randint(2, 4), r.choice([16, 17, 18, 33, 47, 48, 49, 64, 70])
+    dense = [[u, v] for u in range(1, L + 1) for v in range(1, R + 1) if r.random() < 0.93]
+    ops += [["bip", L, R, dense, "user-class-own-order"], ["smap", L, R, dense[::2] + dense[1::4], "user-class-own-order"],
+            ["bip", L, R, dense, "user-class"]]
     r.shuffle(ops)
     run_history(ctx, cls, ops, 0, r)
 
